@@ -185,7 +185,7 @@ def run(ctx):
         types_enumerated_exhaustively=exhaustive_types,
         failures=failures[:20],
     )
-    ctx.need(len(observed) >= 0.98 * len(cases), "only %d of %d cases observed" % (len(observed), len(cases)))
+    ctx.need(len(observed) >= 0.98 * len({c.key for c in cases}), "only %d of %d cases observed" % (len(observed), len(cases)))
 
 
 def replay(ctx, rep):
